@@ -219,6 +219,22 @@ def run(tier, seed):
             if val["outcome"] != "passed":
                 sob.update({"verdict": "inconclusive", "message": "the obligation is discharged but a real node's UserManager breaks it on a sampled history: %s" % val["message"]})
     obligations.append(sob)
+    # ---- S18.4 the console handlers' call sites: a namespace named by the request is checked before the data layer is reached
+    from . import c18sites
+    for cob in c18sites.run(tier, seed):
+        if cob.get("verdict") == "violation" and not os.environ.get("VERIF_NO_NATIVE"):
+            from .common import native_histories
+            ce = cob.get("counterexample") or {}
+            rr = native_histories("C18", "console", "violation", [{"handler": ce.get("handler"), "file": ce.get("file")}], {"obligation": cob["harness"], "model": ce}, cob["message"])
+            cob["replay_path"] = rr["path"]
+            cob["replay"] = {"path": rr["path"], "outcome": rr["outcome"], "message": rr["message"]}
+            if rr["outcome"] == "reproduced":
+                cob["message"] = "%s [real handler, called with the session of a user restricted to another namespace: %s]" % (cob["message"], rr["message"][:300])
+            elif "no native call for handler" in (rr.get("message") or ""):
+                cob["replay"]["outcome"] = "model-only"
+            else:
+                cob.update({"verdict": "inconclusive", "message": "engine-S counterexample (%s) did not reproduce on the real handler (%s %s)" % (cob["message"], rr["outcome"], rr["message"])})
+        obligations.append(cob)
     info["wall_s"] = round(time.time() - t0, 1)
     return {"obligations": obligations, "info": info}
 
